@@ -407,6 +407,11 @@ func (m *Message) SerializeTo(b []byte) (err error) {
 		}
 		offset += avp.Len()
 	}
+	// The length that is emitted is the length of what was emitted.
+	// Header.MessageLength is kept up to date by NewAVP, AddAVP, InsertAVP
+	// and Marshal; it cannot know of a member added later to a group that
+	// is already part of the message.
+	copy(b[1:4], uint32to24(uint32(offset)))
 	return nil
 }
 
